@@ -104,6 +104,10 @@ class Run:
             # the clock stands in the last tenth of the second in which the token (less the client's 60 s leeway) expired
             token["expires_at"] = int(time.time()) + 60
         kw = {}
+        if cfg.get("leeway"):
+            # the application configured a wider safety margin: the token is expired by the client's own rule, not by the default 60 s one
+            kw["leeway"] = cfg["leeway"]
+            token["expires_at"] = int(time.time()) + (60 + cfg["leeway"]) // 2
         if cfg["grant"].startswith("refresh"):
             token["refresh_token"] = "r0"
         else:
